@@ -21,7 +21,7 @@ RULE = ("case = (solver x noise cell, fixed|adaptive, ts/dt layout, SDE seed); n
 ASSUMPTIONS = ["float64 central differences eps=1e-6: truncation+rounding error ~1e-9 relative; threshold 1e-6",
                "adaptive: 'away from accept/reject boundaries' is realised by freezing the recorded schedule"]
 REQUIRED_COUNTERS = ["fixed_runs", "adaptive_runs", "adaptive_rejections_replayed", "error_control_calls",
-                     "unaligned_outputs", "wrt_params_only", "wrt_y0_only", "wrt_both", "plain_object_sde", "logqp_losses"]
+                     "unaligned_outputs", "wrt_params_only", "wrt_y0_only", "wrt_both", "plain_object_sde", "logqp_losses", "chunked_resumed_solves"]
 THRESHOLDS = {"rel": 1e-6}
 
 
@@ -71,6 +71,11 @@ def run_case(case):
     # logqp=True: the returned log-ratio is part of the returned numerical solution and is differentiated too
     # (through stable_division / the pseudo-inverse of g); the loss then weights both outputs
     logqp = rng.random() < 0.35
+    chunked = (cell["method"] == "reversible_heun" and not case["adaptive"] and len(tsl) > 2 and rng.random() < 0.85)
+    if chunked:
+        logqp = False
+    cut = rng.randrange(1, len(tsl) - 1) if chunked else None
+    cnt["chunked_resumed_solves"] = int(chunked)
     cnt["logqp_losses"] = int(logqp)
     if logqp:
         sde = zoo.Conditioned(sde)
@@ -90,6 +95,12 @@ def run_case(case):
                                        levy_area_approximation=levy)
         obj = zoo.Plain(s.f, s.g, s.noise_type, s.sde_type, h=s.h) if plain else s
         with probe.installed():
+            if chunked:
+                # checkpoint-restart: the solve is split at an output time and resumed from the returned extra solver
+                # state; the derivative of the whole program flows through the carried state as well
+                ys1, ex = zoo.solve(cell, obj, y0, ts[:cut + 1], dt, bm=bm, extra=True)
+                ys2, ex2 = zoo.solve(cell, obj, ys1[-1], ts[cut:], dt, bm=bm, extra=True, extra_solver_state=ex)
+                return (torch.cat([ys1, ys2[1:]], 0) * w).sum() + sum((e * e).sum() for e in ex2) * 0.1
             if logqp:
                 ys, lq = zoo.solve(cell, obj, y0, ts, dt, bm=bm, logqp=True, **akw)
                 return (ys * w).sum() + (lq * wq).sum()
@@ -99,7 +110,7 @@ def run_case(case):
     nominal = probes.SolverProbe(keep_states=False)
     y0 = y0v.clone().requires_grad_(wrt != "params_only")
     L = loss(sde, y0, nominal)
-    ctx0 = f"cell={zoo.cell_name(cell)} adaptive={case['adaptive']} wrt={wrt} plain_object={plain} logqp={logqp}"
+    ctx0 = f"cell={zoo.cell_name(cell)} adaptive={case['adaptive']} wrt={wrt} plain_object={plain} logqp={logqp} chunked={chunked}"
     if not L.requires_grad:
         return {"violations": [{"mechanism": "solution_not_attached_to_autograd_graph",
                                 "detail": f"sdeint output does not require grad although inputs do: {ctx0}"}],
